@@ -147,7 +147,7 @@ section
 /- `strict = false`: exactly what `spec.validate(dna)` accepts. `strict = true` additionally
 demands that a node whose *children* carry the decisions (a space of >= 2 decision points, a
 multi-choice) has no value of its own — `validate`, `decode` ignore such a stray value, `encode`
-never produces it (finding F53). -/
+never produces it (finding F85). -/
 variable (strict : Bool)
 
 /-- One (sub-)choice node `(i, children)` against the candidate validators: the index is an int in
